@@ -1,9 +1,9 @@
 """Dense reference model written from Pulser's conventions; shares no code with the emulators.
 
-Basis order per atom is the emulators' reporting order: index 0 = g / d ('0'), index 1 = r / u ('1'),
+Basis order per atom is the emulators' reporting order: index 0 = g / u ('0'), index 1 = r / d ('1'),
 index 2 = x (leakage).  Atom 0 of the register is the most significant tensor factor.
 Pulser convention (pulser-simulation `Hamiltonian`): coefficient  Omega/2 * exp(-i phi)  multiplies
-sigma_gr = |g><r| (sigma_du in XY), plus h.c.;  -delta multiplies sigma_rr (sigma_uu).
+sigma_gr = |g><r| (sigma_ud in XY), plus h.c.;  -delta multiplies sigma_rr (sigma_dd).
 """
 from __future__ import annotations
 
@@ -156,7 +156,9 @@ def basis_perm(pulser_eigenbasis, emu_order):
 
 def emu_order_for(eigenbasis):
     eb = list(eigenbasis)
-    base = ["g", "r"] if "r" in eb else ["d", "u"]
+    # ground-rydberg: |0>=g, |1>=r.  XY: pulser's qubit states are |0>=u, |1>=d (channels/base_channel.py:
+    # "u -> 0, d -> 1"; State.infer_one_state -> "d"), and H^D = Omega/2 e^{-i phi}|0><1| + h.c. - delta |1><1|.
+    base = ["g", "r"] if "r" in eb else ["u", "d"]
     return base + (["x"] if "x" in eb else [])
 
 
